@@ -556,6 +556,125 @@ def check_dh_split(ctx) -> None:
         ctx.check(norm(s.index) == norm(boil[0].index), 'F8', f'calc_util_factor/index@{s.line}', f'{rel}:{s.line}', 'split stored at another index than the boiler demand')
 
 
+def _eval_enum_expr(e: ast.AST, member: str, table: dict, props: dict, enum: str, depth: int = 0):
+    """Value of an expression over `self` = <enum>.<member>, by finite evaluation over the member table (constant folding only: member
+    identity / equality / membership, int_value, range(), and / or / not, other properties of the enum).  Raises ValueError when the
+    expression is outside that fragment."""
+    if depth > 6:
+        raise ValueError('too deep')
+    ev = lambda x: _eval_enum_expr(x, member, table, props, enum, depth + 1)          # noqa: E731
+    if isinstance(e, ast.Constant):
+        return e.value
+    if isinstance(e, ast.Name) and e.id == 'self':
+        return ('member', member)
+    if isinstance(e, ast.Attribute):
+        d = dotted_name(e) or ''
+        ps = d.split('.')
+        if len(ps) == 2 and ps[0] in (enum, '__class__') and ps[1] in table:
+            return ('member', ps[1])
+        if ps and ps[-1] in ('int_value', 'value') and len(ps) >= 2:
+            base = ev(e.value)
+            if isinstance(base, tuple) and base[0] == 'member':
+                return table[base[1]][0] if ps[-1] == 'int_value' else table[base[1]][1]
+        if isinstance(e.value, ast.Name) and e.value.id == 'self' and e.attr in props:
+            return _eval_enum_expr(props[e.attr], member, table, props, enum, depth + 1)
+        raise ValueError(norm(e))
+    if isinstance(e, ast.BoolOp):
+        vals = [bool(ev(v)) for v in e.values]
+        return all(vals) if isinstance(e.op, ast.And) else any(vals)
+    if isinstance(e, ast.UnaryOp) and isinstance(e.op, ast.Not):
+        return not ev(e.operand)
+    if isinstance(e, ast.BinOp) and isinstance(e.op, (ast.Add, ast.Sub)):
+        a, b = ev(e.left), ev(e.right)
+        return a + b if isinstance(e.op, ast.Add) else a - b
+    if isinstance(e, ast.Call) and dotted_name(e.func) == 'range' and 1 <= len(e.args) <= 3:
+        return range(*[ev(a) for a in e.args])
+    if isinstance(e, (ast.List, ast.Tuple, ast.Set)):
+        return [ev(x) for x in e.elts]
+    if isinstance(e, ast.Compare):
+        cur = ev(e.left)
+        for op, rhs in zip(e.ops, e.comparators):
+            r = ev(rhs)
+            if isinstance(op, (ast.Is, ast.Eq)):
+                ok = cur == r
+            elif isinstance(op, (ast.IsNot, ast.NotEq)):
+                ok = cur != r
+            elif isinstance(op, ast.In):
+                ok = cur in r
+            elif isinstance(op, ast.NotIn):
+                ok = cur not in r
+            elif isinstance(op, ast.Lt):
+                ok = cur < r
+            elif isinstance(op, ast.LtE):
+                ok = cur <= r
+            elif isinstance(op, ast.Gt):
+                ok = cur > r
+            elif isinstance(op, ast.GtE):
+                ok = cur >= r
+            else:
+                raise ValueError('operator')
+            if not ok:
+                return False
+            cur = r
+        return True
+    raise ValueError(norm(e)[:40])
+
+
+def check_electricity_options(ctx) -> None:
+    """F13: the annual electricity series are integrated for exactly the end-use options that have an electricity component - decided by
+    evaluating the guard for every member of EndUseOptions (a finite table), also when the guard goes through a property of the enum."""
+    repo = ctx.repo
+    from gxstat.registry import get_registry as _greg
+    reg = _greg(repo)
+    table = reg.enums.enums.get('EndUseOptions')
+    ctx.require(bool(table), 'EndUseOptions members not found')
+    ci = repo.find_cls('EndUseOptions', repo.module('geophires_x/OptionList.py'))
+    props = {}
+    if ci is not None:
+        for m in ci.methods.values():
+            if any(norm(d) == 'property' for d in m.node.decorator_list):
+                rets = [r for r in ast.walk(m.node) if isinstance(r, ast.Return) and r.value is not None]
+                if len(rets) == 1:
+                    props[m.name] = rets[0].value
+    want = {m for m in table if m == 'ELECTRICITY' or m.startswith('COGENERATION')}
+    f = repo.method('SurfacePlant', 'annual_electricity_pumping_power')
+    n = 0
+    for st in ast.walk(f.node):
+        if not isinstance(st, ast.If):
+            continue
+        stored = {norm(t.value if isinstance(t, ast.Subscript) else t) for x in ast.walk(st) if isinstance(x, ast.Assign) for t in x.targets}
+        if not ({'TotalkWhProduced', 'NetkWhProduced'} & stored) or any(isinstance(p_, ast.If) and p_ is not st and any(st is y for y in ast.walk(p_))
+                                                                         for p_ in ast.walk(f.node)):
+            continue
+        # the option under test: the function's parameter (bound to enduse_option.value by every caller)
+        test = st.test
+        subj = next((a.arg for a in f.node.args.args if 'enduse' in a.arg.lower()), None)
+        if subj is None:
+            continue
+
+        class _S(ast.NodeTransformer):
+            def visit_Name(self, n_):
+                return ast.copy_location(ast.Name(id='self', ctx=ast.Load()), n_) if n_.id == subj else n_
+        from gxstat.srcmodel import clone as _cl
+        t2 = ast.fix_missing_locations(_S().visit(_cl(test)))
+        got = set()
+        try:
+            for m in table:
+                if _eval_enum_expr(t2, m, table, props, 'EndUseOptions'):
+                    got.add(m)
+        except ValueError as e:
+            ctx.info(f'F13 {f.module.rel}:{st.lineno} guard `{norm(test)[:60]}` is outside the finitely evaluable fragment ({e}): not decided')
+            continue
+        n += 1
+        ctx.check(got == want, 'F13', 'annual_electricity_pumping_power/electricity-series-for-every-option-with-electricity', f'{f.module.rel}:{st.lineno}',
+                  f'the annual electricity series are integrated for {sorted(got)}; options with an electricity component are {sorted(want)}: for '
+                  f'{sorted(want - got) or sorted(got - want)} the yearly kWh stay zero (or are computed from nothing) although the power series are not',
+                  fact=f'guard holds for exactly the {len(want)} options with electricity')
+    if n == 0:
+        ctx.info('F13: no evaluable guard around the annual electricity integration found (not decided)')
+        ctx.ok('F13', 'annual_electricity_pumping_power/guard-not-evaluable', f.where, 'not decided on this tree')
+
+
 def check_shared_storage(ctx) -> None:
     """F9: `A.value = B.value` makes two reported series one array.  Any later in-place store to either (element, slice or mask
     assignment, augmented assignment) changes the other as well - clipping one side of a balance silently clips the other."""
@@ -708,6 +827,8 @@ def run(ctx) -> None:
     ctx.rule('F9', 'no in-place store to a series that shares its array with another reported series')
     ctx.rule('F10', 'thermal-storage plant: total = storage + auxiliary at every step; annual series sum their own step series, same window and factor')
     check_shared_storage(ctx)
+    ctx.rule('F13', 'the annual electricity series are integrated for exactly the end-use options that have an electricity component (guard evaluated over all members of EndUseOptions, through enum properties too)')
+    check_electricity_options(ctx)
     check_sutra_plant(ctx)
     from rules.helper_contract import run_shared
     run_shared(ctx, 'F11', 'F12', 5)
